@@ -111,6 +111,14 @@ type Trace struct {
 	Leaks           []G
 	LeakUndecided   bool
 	Detached        int64
+	BarWaitStuck    []int // bars whose Bar.Wait did not return after Progress.Wait had
+	LateFrom        int   // index into Adds/Writes/Gets bookkeeping: see LateAdds etc.
+	LateAdds        []AddRec
+	LateWrites      []WriteRec
+	FinalLate       []GetRec // getters once more after the late calls
+	LateProxies     int      // ProxyReader/ProxyWriter calls made after Wait returned
+	LateProxyNonNil int      // ... that returned a non-nil proxy
+	LateChunksAfter int      // output writes caused by late calls
 }
 
 type EwmaSample struct {
@@ -164,6 +172,7 @@ type runner struct {
 	stepsDone        atomic.Bool
 	framesAfterSteps atomic.Int64
 	waitStarted      atomic.Bool
+	late             atomic.Bool
 }
 
 type lockedBuf struct {
@@ -496,6 +505,12 @@ func (r *runner) buildDecor(bar, di int, spec *DecorSpec) decor.Decorator {
 			d = decor.OnCompleteOrOnAbort(d, "fin")
 		case "ocmoam":
 			d = decor.OnCompleteMetaOrOnAbortMeta(d, colour)
+		case "oncomplete-e": // empty replacement messages ("clear on complete")
+			d = decor.OnComplete(d, "")
+		case "onabort-e":
+			d = decor.OnAbort(d, "")
+		case "ocoa-e":
+			d = decor.OnCompleteOrOnAbort(d, "")
 		}
 	}
 	return probe{Decorator: d, r: r, bar: bar, di: di, spec: spec, in: in}
@@ -879,6 +894,48 @@ pump:
 			r.mu.Unlock()
 		}
 	}
+	// Bar.Wait of every bar returns (their goroutines have exited)
+	for i := range sc.Bars {
+		if b := r.bar(i); b != nil {
+			wch := make(chan struct{})
+			go func() { b.Wait(); close(wch) }()
+			select {
+			case <-wch:
+			case <-time.After(3 * time.Second):
+				r.mu.Lock()
+				r.tr.BarWaitStuck = append(r.tr.BarWaitStuck, i)
+				r.mu.Unlock()
+			case <-r.abort:
+			}
+		}
+	}
+	if len(sc.Late) > 0 {
+		r.curStep.Store("late calls")
+		r.late.Store(true)
+		r.mu.Lock()
+		na, nw := len(r.tr.Adds), len(r.tr.Writes)
+		r.mu.Unlock()
+		for i := range sc.Late {
+			if r.aborted() {
+				return
+			}
+			r.curStep.Store(fmt.Sprintf("late call %d %s bar=%d", i, sc.Late[i].Op, sc.Late[i].Bar))
+			r.runStep(&sc.Late[i], len(sc.Steps)+i, 1)
+		}
+		r.mu.Lock()
+		r.tr.LateAdds = append([]AddRec(nil), r.tr.Adds[na:]...)
+		r.tr.LateWrites = append([]WriteRec(nil), r.tr.Writes[nw:]...)
+		r.mu.Unlock()
+		for i := range sc.Bars {
+			if b := r.bar(i); b != nil {
+				g := GetRec{Step: -2, Bar: i, Cur: b.Current(), Completed: b.Completed(), Aborted: b.Aborted(), Running: b.IsRunning(), Seq: r.seq.Add(1)}
+				r.mu.Lock()
+				r.tr.FinalLate = append(r.tr.FinalLate, g)
+				r.mu.Unlock()
+			}
+		}
+		r.curStep.Store("post-wait")
+	}
 	if cfg.Notifier {
 		// exactly one value is expected; look for a second one while settling
 		recv := func(d time.Duration) bool {
@@ -1176,13 +1233,26 @@ func (r *runner) runStep(st *Step, idx, depth int) {
 		}
 	case "proxy":
 		if b != nil {
-			if pr := b.ProxyReader(strings.NewReader(strings.Repeat("x", int(st.N%64)))); pr != nil {
+			pr := b.ProxyReader(strings.NewReader(strings.Repeat("x", int(st.N%64))))
+			if pr != nil {
 				_, _ = io.Copy(io.Discard, pr)
 				_ = pr.Close()
 			}
-			if pw := b.ProxyWriter(io.Discard); pw != nil {
+			pw := b.ProxyWriter(io.Discard)
+			if pw != nil {
 				_, _ = pw.Write([]byte("yy"))
 				_ = pw.Close()
+			}
+			if r.late.Load() {
+				r.mu.Lock()
+				r.tr.LateProxies += 2
+				if pr != nil {
+					r.tr.LateProxyNonNil++
+				}
+				if pw != nil {
+					r.tr.LateProxyNonNil++
+				}
+				r.mu.Unlock()
 			}
 		}
 	case "sleep":
